@@ -174,6 +174,19 @@ example : (plugPlan exPlug).packages =
     [("plug:name0".toList, "x/name.wasm".toList), ("plug:name1".toList, "name.wasm".toList),
      ("plug:other".toList, "other.wasm".toList)] := by decide
 
+/-- The code iterates a `HashMap` of the name groups, i.e. registers the groups in some other
+    order: that only *permutes* the registered packages (nothing is dropped, renamed or
+    duplicated), and the members of a group keep their argument order and indices. -/
+theorem plug_group_order_only_permutes (f : PlugFlags) (order : List (Str × List Str) → List (Str × List Str))
+    (h : ∀ g, (order g).Perm g) :
+    (plugPlanWith generated order f).packages.Perm (plugPlan f).packages := by
+  simp only [plugPlan, plugPlanWith, id]
+  exact List.Perm.flatMap_right groupPackages (h _)
+
+example : (plugPlanWith generated List.reverse exPlug).packages =
+    [("plug:other".toList, "other.wasm".toList), ("plug:name0".toList, "x/name.wasm".toList),
+     ("plug:name1".toList, "name.wasm".toList)] := by decide
+
 /-- what `wac plug` shows is the documented function of the library's result -/
 theorem plug_observation_documented (f : PlugFlags) (lib : LibResult) :
     emitRun generated (plugPlan f).text (plugPlan f).sink lib false true = documentedPlugObservation f lib := by
